@@ -355,8 +355,32 @@ func (m *Machine) jsonMarshal(fr *frame, v value, t types.Type, escapeHTML bool)
 			lit("null")
 			return
 		}
-		if hasMethod(t, "MarshalJSON") || hasMethod(t, "MarshalText") {
-			panic(unsupported("json model: type with custom marshaller " + t.String()))
+		if hasMethod(t, "MarshalJSON") {
+			// custom marshaller: its output is taken as is (encoding/json would also validate
+			// and compact it; the marshallers reachable here emit compact valid JSON)
+			if p, ok := v.(*value); ok && p == nil {
+				lit("null")
+				return
+			}
+			res := m.callMethod(fr, iface{t, v}, "MarshalJSON").(tuple)
+			if e := res[1].(iface); e.t != nil {
+				panic(unsupported("json model: MarshalJSON returned an error"))
+			}
+			out = append(out, valuesToBytes(res[0].([]value))...)
+			return
+		}
+		if _, isPtr := t.Underlying().(*types.Pointer); !isPtr && hasMethod(types.NewPointer(t), "MarshalJSON") {
+			// pointer-receiver marshaller on an addressable value
+			cp := copyVal(v)
+			res := m.callMethod(fr, iface{types.NewPointer(t), &cp}, "MarshalJSON").(tuple)
+			if e := res[1].(iface); e.t != nil {
+				panic(unsupported("json model: MarshalJSON returned an error"))
+			}
+			out = append(out, valuesToBytes(res[0].([]value))...)
+			return
+		}
+		if hasMethod(t, "MarshalText") {
+			panic(unsupported("json model: type with MarshalText " + t.String()))
 		}
 		switch u := t.Underlying().(type) {
 		case *types.Basic:
